@@ -354,12 +354,16 @@ func Exec(fsys hackpadfs.FS, st Step, hs *Handles, mt MTimeSet) (res Result) {
 		fillErr(&res, err)
 		if err == nil {
 			res.Data = EntriesString(entries)
+			for i := range entries {
+				entries[i] = nil // the returned slice is the caller's
+			}
 		}
 	case "ReadFile":
 		b, err := hackpadfs.ReadFile(fsys, st.P)
 		fillErr(&res, err)
 		if err == nil {
 			res.Data = string(b)
+			scribble(b) // so are the returned bytes
 		}
 	case "Sub":
 		_, err := hackpadfs.Sub(fsys, st.P)
@@ -501,6 +505,9 @@ func execHandle(f hackpadfs.File, st Step, res *Result) {
 		}
 		sort.Strings(names) // page order is unspecified for handle reads (os returns directory order)
 		res.Data = strings.Join(names, ",")
+		for i := range entries {
+			entries[i] = nil // the returned slice is the caller's: callers filter and reorder it in place
+		}
 	case "H.Sync":
 		fillErr(res, hackpadfs.SyncFile(f))
 	case "H.Chmod":
